@@ -35,7 +35,17 @@ S32, S64 = (1 << 31) - 1, 1 << 62
 HOWS = ['left', 'right', 'inner', 'outer']
 AUX = ('_left_map', '_right_map')
 
-RULE = ('(SC02) key columns of every dtype: all 146 ordered pairs of key dtypes within {int8..int64, uint8..uint64, bool} x '
+RULE = ('(VC02) field NAMES as data: every name merge / _ordered_merge / _unordered_merge use for a field or a pandas column of '
+        'their own (_left_map, _right_map, _a_map, _b_map, valid_l, valid_r, valid, l_i, r_i, l_k, r_k, l_k_0, r_k_0, the '
+        'suffixes _l / _r themselves, and suffixed variants of these and of ordinary names) as the name of a payload field of '
+        'the left frame, of the right frame, of both, or as the name of the key fields, x 4 modes x every truthful hint '
+        'set (streamed path with each truthful pair of unique hints, hint-free, non-selecting) on 11 small key-column pairs '
+        '(quick: the two map names with 4 pairs x all hint sets, the other names in rotation), payload kinds rotating (values '
+        'that look like a join map); destinations that already hold a field (10 names incl. the internal ones) x the same; '
+        'chains of two merges: the destination of the first (all its fields, _left_map/_right_map/valid_* included, or all '
+        'that do not collide) is the left or the right frame of the second, first merge 4 modes x truthful hint sets, second '
+        'merge 4 modes x every truthful hint set (streamed when the first was streamed), other frame with internal names. '
+        'Then (SC02) key columns of every dtype: all 146 ordered pairs of key dtypes within {int8..int64, uint8..uint64, bool} x '
         '{the same}, {float32, float64}^2, integer x float (both orders) and {S1,S2,S3,S5,S8}^2, each x 4 modes on the pandas '
         'path (hint-free / non-selecting truthful hints, sorted and unsorted, some with a second key column) and x '
         '{left,right,inner} on the streamed path (truthful unique hints, small and production chunk sizes), 2 structured-'
@@ -63,7 +73,12 @@ TRUSTED = ['the encoding of key values as integers (harness/props/C02.py _dec_ke
            'h5py / HDF5 field storage, Field.create_like, DataFrame.rename (modelled as association-list updates)',
            'numba code generation; numpy slicing semantics (np_slice / np_get of Model/MapStream.v)',
            'chunk sizes are injected by wrapping exetera.core.operations attributes with functools.partial (no source edit)']
-ASSUMPTIONS = ['key values are finite (no NaN: no order, so no truthful ordered hint), floats are multiples of 2^-60 below 1e305, '
+ASSUMPTIONS = ['the destination names the documented rule gives (name, or name + suffix when the other side maps a field of the same '
+               'name) are distinct and none of them is already in the destination (else no destination can hold the join: '
+               'ValueError on every path, checked); none of them is the name of a field the call creates for itself '
+               '(else known finding F-C02j); the destination holds no field called _a_map/_b_map/_left_map/_right_map when '
+               'the streamed path is taken (else known finding F-C02k)',
+               'key values are finite (no NaN: no order, so no truthful ordered hint), floats are multiples of 2^-60 below 1e305, '
                'fixed-string keys at most 8 bytes; the two key columns of a pair are both numeric or both fixed strings',
                'no two keys of opposite sides of an int64/uint64 or integer/float key pair have the same binary64 value '
                '(else known finding F-C02i)',
@@ -1594,6 +1609,13 @@ def _gen_names(tier, rng):
             for kp in (range(len(_NAME_KEYS)) if not quick else [[0, 2, 4, 6][cnt % 4]]):
                 L, R = _NAME_KEYS[kp]
                 for h in _hint_sets(how, L, R, quick, cnt):
+                    if h[0] and h[2] and how in ('left', 'right') and (h[3] if how == 'left' else h[1]) and \
+                            pre_name in ('_a_map', '_left_map' if how == 'left' else '_right_map'):
+                        # F-C02k where the code as found takes the field that was already there for a join map (silent):
+                        # witnesses live in corpus/C02/VC02-names.json; the cross-cutting checks C10/C11 that re-run this
+                        # generator compare with the model (= the repaired code, work/VC02/fix-F-C02k.diff) only
+                        cnt += 1
+                        continue
                     fl, fr = _named_frames(L, R, None, None, 'i', cnt)
                     c = {'how': how, 'hints': h, 'L': fl, 'R': fr, 'lf': None, 'rf': None,
                          'pre': [[pre_name, _map_like(3 + cnt % 2, min(len(L), len(R)), cnt)]]}
@@ -1739,4 +1761,8 @@ LEVEL_TEXT = ('Theorems in coq/Props/C02.v: the streamed path of the repaired me
               'destination of the join of the keys themselves (ordered_merge_key_embedding); conversions that are not '
               'injective on the keys present change the join (narrowing_key_cast_refuted: int64->int32, int64->uint16, '
               'float64->float32, S5->S3; binary64_key_comparison_refuted: F-C02i).')
+LEVEL_TEXT += (' Names as data (VC02, Model/MergeChain.v): merge into a destination that holds fields and chains of two merges are '
+               'modelled (merge_into_empty_destination); payload_called_like_absent_map_is_data and '
+               'chained_merge_map_field_is_payload are worked instances (a field called _right_map is an ordinary column where '
+               'the call writes no right map, also when it comes from an earlier merge); payload_called_like_map_refuted is F-C02j.')
 LEVEL_NOTE = 'Model tied to /repo by the differential run only; see evidence for theorem list and which are full / partial / refuted.'
